@@ -52,7 +52,7 @@ Fixpoint cmp_loop (fuel : nat) (max_n x bound_x compare : Z) (rop n divisor erro
     let divisor' := divisor + ONE in
     let error1 := scale (error * x) in                 (* error *= x; scale(&mut error) *)
     let error' := fdiv error1 divisor' in              (* div(&mut error, &e2, &divisor) *)
-    let error_term := error' * bound_x in
+    let error_term := Z.abs error' * bound_x in       (* (&error).abs() * IBig::from(bound_x) *)
     let rop' := rop + next_x in
     let upper := rop' + error_term in
     if compare >? upper then mkResult (n + 1) GT rop' else
